@@ -179,7 +179,8 @@ def record(cfg: dict, seed: int, terms: dict) -> sweep.SweepLog:
     except Exception:  # noqa: BLE001
         c_int0 = np.full(len(p), np.nan)
         c_flt0 = np.zeros(len(p))
-    pvt_t, kr_t = mp.frames(P, tab["cols"], so_t, kr_so, kr_cols, sw, as_frame=bool(i % 2 == 0))
+    as_int = bool(np.all(P == np.round(P)) and (i // len(FAMILIES)) % 2 == 0)   # integer pressure column, as read from a csv file
+    pvt_t, kr_t = mp.frames(P.astype(np.int64) if as_int else P, tab["cols"], so_t, kr_so, kr_cols, sw, as_frame=bool(i % 2 == 0))
     fp = mp.from_table(pvt_t, kr_t, rho, phi, sw, float(P[-1]))
     tab_alpha = np.asarray(fp.pvt_props["alpha"], float)
     # oracle: documented sums from the spec's term lists, with the code's own interpolators, fixed saturation
